@@ -58,6 +58,15 @@ def extract(E, p, self_id, field_names, fetch_pat):
                 guards[leaf.id] = ("mutex_unlock",)
             continue
         if re.search(r"HashSet::contains$|HashMap::get$|HashMap::contains_key$", nm):
+            if held and held[-1][1] == "running":
+                # look-up of the per-key mutex without creating it
+                r = e.dest.get(())
+                d = mir.peek(E, p.mem, (("o", r.id), "disc")) if isinstance(r, mir.Opq) else (e.dest.get(("disc",)) if e.dest else None)
+                out = forced(E, p, d == 1) if d is not None else (forced(E, p, r) if mir.is_z(r) else None)
+                if out is None:
+                    raise mir.Inconclusive("outcome of the look-up in `running` not forced at %s" % (e.where,))
+                seq.append((("observe_running",), out))
+                continue
             if not held or held[-1][1] != "updated":
                 raise mir.Inconclusive("membership test outside the `updated` lock at %s" % (e.where,))
             r = e.dest.get(())
@@ -81,6 +90,9 @@ def extract(E, p, self_id, field_names, fetch_pat):
             seq.append((("map_remove",), None))
             continue
         if re.search(r"HashSet::insert$|HashMap::insert$", nm):
+            if held and held[-1] == ("write", "running"):
+                seq.append((("running_insert",), None))
+                continue
             if not held or held[-1] != ("write", "updated"):
                 raise mir.Inconclusive("insert outside updated.write()")
             seq.append((("member_insert",), None))
@@ -130,6 +142,7 @@ def compress(seq, bad=frozenset()):
             while j < len(seq) and seq[j][0][0] != "named_unlock":
                 j += 1
             if all(x[0][0] not in ("fetch_begin", "member_insert", "map_remove", "entry_or_default", "observe_member",
+                                   "observe_running", "running_insert",
                                    "mutex_lock", "rw_read", "rw_write") for x in seq[i + 1:j]):
                 i = j + 1
                 continue
